@@ -410,9 +410,25 @@ func (w *Worker) endOfPath(s *State) PathEnd {
 			return PathEnd{"inconclusive", "integer overflow possible on this path (add bounds to the harness): " + r}
 		}
 	}
+	// reach witnesses must be genuinely satisfiable (paths are kept on abstract feasibility)
+	var fresh []string
 	e.mu.Lock()
 	for _, r := range s.Reached {
-		e.Reached[r]++
+		if e.Reached[r] == 0 {
+			fresh = append(fresh, r)
+		}
+	}
+	e.mu.Unlock()
+	confirmed := true
+	if len(fresh) > 0 {
+		r, _ := w.S.Check(s.Decls, s.PC, nil, nil)
+		confirmed = r == "sat"
+	}
+	e.mu.Lock()
+	for _, r := range s.Reached {
+		if e.Reached[r] > 0 || confirmed {
+			e.Reached[r]++
+		}
 	}
 	if len(e.Samples) < 3 && len(s.PC) > 0 {
 		pc := strings.Join(s.PC, " ∧ ")
